@@ -1,7 +1,7 @@
 (* C20 -- property theorems only. *)
 From Coq Require Import List NArith Bool.
 Import ListNotations.
-Require Import Verif.Lib.Wire Verif.Lib.C20Types Verif.Gen.Facts_C20 Verif.Model.C20 Verif.Proofs.C20 Verif.Proofs.C20_commit Verif.Proofs.C20_rel.
+Require Import Verif.Lib.Wire Verif.Lib.C20Types Verif.Gen.Facts_C20 Verif.Model.C20 Verif.Proofs.C20 Verif.Proofs.C20_commit Verif.Proofs.C20_rel Verif.Proofs.C20_wf.
 Require Verif.Model.C04.
 
 Theorem C20_keys_faithful : forall s k f,
@@ -83,3 +83,16 @@ Theorem C20_relations_symmetric : forall l s a b,
   linked s a b = linked s b a.
 Proof. exact relations_symmetric. Qed.
 Print Assumptions C20_relations_symmetric.
+
+(* every state reached by any sequence of introspector operations keeps one entry per (category, discriminator),
+   stored under the entry's own key; `remove` erases exactly that entry *)
+Theorem C20_reachable_invariants : forall ops, WF (run_state init ops) /\ KeysOwn (run_state init ops).
+Proof. exact reachable_invariants. Qed.
+Print Assumptions C20_reachable_invariants.
+
+Theorem C20_remove_erases : forall ops c d s',
+  remove (run_state init ops) c d = (s', None) ->
+  lookup s' c d = None /\
+  forall c' d', (c', d') <> (c, d) -> lookup s' c' d' = lookup (run_state init ops) c' d'.
+Proof. exact remove_erases. Qed.
+Print Assumptions C20_remove_erases.
